@@ -469,6 +469,19 @@ func (c *Cron) schedule(ctx *core.Context, job *CronJob, checkLimit bool) error 
 
 	if job.Expression != nil {
 		job.Next = job.Expression.Next(time.Now().UTC())
+		if job.Next.IsZero() {
+			// The schedule has no (more) occurrences.  Scheduling
+			// the zero time would fire the job at once, over and
+			// over.
+			if checkLimit {
+				// (from Add)
+				err := fmt.Errorf("schedule of job %s has no future occurrence", job.Id)
+				core.Log(core.WARN|CRON, ctx, "Cron.schedule", "error", err, "name", c.Name)
+				return err
+			}
+			// (from run: that was the last occurrence)
+			return nil
+		}
 	}
 
 	c.Lock()
